@@ -20,7 +20,7 @@ ASSUMPTIONS = [
 
 def run(case):
     res = Result()
-    stats = O.replay(case, res, {"ledger", "reward", "pricing", "frames"})
+    stats = O.replay(case, res, {"ledger", "reward", "pricing", "frames"}, episodes=2 if case.get("second_episode") else 1)
     if stats["ruin"]:
         res.excluded = "ended-by-insolvency"
     costly = any(sp > 0 for row in case["bars"] for (_, sp) in row) or any(f > 0 for f in case["fees"])
@@ -30,6 +30,8 @@ def run(case):
         res.tag("latency>0")
     if stats["interest_nonzero"]:
         res.tag("interest")
+    if case.get("second_episode"):
+        res.tag("two-episodes-on-one-environment")
     if any(s["kind"] in ("umargin", "es") for s in case["contracts"]):
         res.tag("margined")
     if any(s["kind"] == "uspot" and s["mult"] != 1 for s in case["contracts"]):
@@ -37,4 +39,14 @@ def run(case):
     return res
 
 
-PARTS = [Part("episodes", strategy=lambda tier: E.episode_cases(tier), run=run, quick=2500, thorough=150000)]
+from hypothesis import strategies as st
+
+
+@st.composite
+def cases(draw, tier="quick"):
+    c = draw(E.episode_cases(tier))
+    c["second_episode"] = draw(st.sampled_from([False, False, True]))    # a second episode on the same environment
+    return c
+
+
+PARTS = [Part("episodes", strategy=lambda tier: cases(tier), run=run, quick=2500, thorough=150000)]
